@@ -40,18 +40,18 @@ FLAGS = dict(Transitive=True, TopoSort=True, ExitFix=True, OrderedAuto=True,
              OrderedTopo=True)
 
 BOUNDS = {
-    # go_states : bound of the real machine's own full search (formulas are
-    #             evaluated by TLC on every set it reaches)
+    # go_states / go_edges: bounds of the real machine's own full search (the
+    #             formulas are evaluated by TLC on every set it reaches)
     # full_edges: a schema is explored by TLC in full while states*ops <= this
-    # part_edges: same bound for the relation core / one relation component
+    # part_edges: same bound for the relation core / the states around one group
     # sim       : (behaviours, depth) of `tlc -simulate` on the full schema for
     #             every schema that is not explored in full
-    "quick": dict(go_states=200_000, full_edges=450_000, part_edges=130_000,
-                  batch_edges=260_000, sim=(2, 12), paths=40, mc_timeout=900,
-                  parallel=4, workers=4),
-    "thorough": dict(go_states=2_000_000, full_edges=6_500_000, part_edges=2_500_000,
-                     batch_edges=1_500_000, sim=(12, 40), paths=300, mc_timeout=6000,
-                     parallel=4, workers=4),
+    "quick": dict(go_states=200_000, go_edges=600_000, full_edges=100_000,
+                  part_edges=50_000, batch_edges=120_000, sim=(2, 10), paths=30,
+                  mc_timeout=900, parallel=4, workers=4, shards=8),
+    "thorough": dict(go_states=2_000_000, go_edges=10_000_000, full_edges=3_200_000,
+                     part_edges=600_000, batch_edges=1_500_000, sim=(10, 30), paths=300,
+                     mc_timeout=6000, parallel=4, workers=4, shards=16),
 }
 
 INVARIANTS = ["Inv_RequireClosed", "Inv_GroupExclusive"]
@@ -112,36 +112,80 @@ def run_stdout(cmd, timeout=None):
 # ---------------------------------------------------------------------------
 # exploration records
 
-def relation_components(sch):
-    """connected components (>= 2 states) of the undirected relation graph."""
-    adj = {n: set() for n in sch}
+def relation_core(sch):
+    """states that take part in any relation (as owner or as target)."""
+    core = set()
     for n, s in sch.items():
         for r in ("require", "add", "remove", "after"):
             for x in s[r]:
-                if x in adj and x != n:
-                    adj[n].add(x)
-                    adj[x].add(n)
-    seen, comps = set(), []
-    for n in sorted(sch):
-        if n in seen or not adj[n]:
-            continue
-        comp, todo = set(), [n]
-        while todo:
-            x = todo.pop()
-            if x in comp:
-                continue
-            comp.add(x)
-            todo += list(adj[x] - comp)
-        seen |= comp
-        comps.append(comp)
-    return comps
+                if x in sch:
+                    core.add(n)
+                    core.add(x)
+    return core
 
 
-def record(rec, mode, label, callable_, max_states):
+def group_clusters(sch, groups):
+    """Planning only (the invariants use the groups computed in TLA+): the
+    clusters of states tied together by mutual Remove or by a declared group
+    whose members are pairwise related by Remove."""
+    parent = {}
+
+    def find(x):
+        parent.setdefault(x, x)
+        while parent[x] != x:
+            parent[x] = parent[parent[x]]
+            x = parent[x]
+        return x
+
+    def union(a, b):
+        parent[find(a)] = find(b)
+
+    for a, s in sch.items():
+        for b in s["remove"]:
+            if b in sch and b != a and a in sch[b]["remove"]:
+                union(a, b)
+    for g in groups:
+        m = [x for x in g["members"] if x in sch]
+        if len(m) >= 2 and all(b in sch[a]["remove"] or a in sch[b]["remove"]
+                               for a in m for b in m if a != b):
+            for x in m[1:]:
+                union(m[0], x)
+    out = {}
+    for x in parent:
+        out.setdefault(find(x), set()).add(x)
+    return sorted((c for c in out.values() if len(c) >= 2), key=lambda c: sorted(c))
+
+
+def cluster_callable(sch, cluster):
+    """The states whose calls can touch the cluster: the members, every state
+    that Removes a member or is Removed by one, every state that (transitively)
+    Adds one of those, all closed under Require."""
+    c = set(cluster)
+    for n, s in sch.items():
+        if set(s["remove"]) & cluster:
+            c.add(n)
+    for m in cluster:
+        c |= {x for x in sch[m]["remove"] if x in sch}
+    changed = True
+    while changed:
+        changed = False
+        for n, s in sch.items():
+            if n not in c and set(s["add"]) & c:
+                c.add(n)
+                changed = True
+        for n in list(c):
+            for x in sch[n]["require"] + sch[n]["add"]:
+                if x in sch and x not in c:
+                    c.add(x)
+                    changed = True
+    return c
+
+
+def record(rec, mode, label, callable_, max_states, max_edges=0):
     idx = rec["index"]
-    return dict(id=rec["id"], mode=mode, label=label, max=max_states, sch=rec["mach_schema"],
-                idx=idx, sorted=rec["sorted"], callable=[n for n in idx if n in callable_],
-                groups=rec["groups"])
+    return dict(id=rec["id"], mode=mode, label=label, max=max_states, max_edges=max_edges,
+                sch=rec["mach_schema"], idx=idx, sorted=rec["sorted"],
+                callable=[n for n in idx if n in callable_], groups=rec["groups"])
 
 
 def write_records(path, records):
@@ -166,14 +210,15 @@ def bfs(binary, path, states_prefix=None, timeout=3000):
 
 def plan(binary, d, recs, B):
     """Decide, from the real machine's own search, how TLC explores each schema."""
-    full = [record(r, "full", "all states", set(r["index"]), B["go_states"]) for r in recs]
+    full = [record(r, "full", "all states", set(r["index"]), B["go_states"], B["go_edges"])
+            for r in recs]
     fpath = os.path.join(d, "full.ndjson")
     write_records(fpath, full)
     sizes = bfs(binary, fpath, states_prefix=os.path.join(d, "states"))
     chosen, modes, parts = [], {}, []
     for k, (r, f, sz) in enumerate(zip(recs, full, sizes)):
         if not sz["truncated"] and sz["states"] * sz["ops"] <= B["full_edges"]:
-            f = dict(f, est_edges=sz["states"] * sz["ops"])
+            f = dict(f, est_edges=sz["states"] * sz["ops"], est_states=sz["states"])
             chosen.append(f)
             modes[r["id"]] = dict(mode="full", exhaustive=True, go_states=sz["states"],
                                   go_truncated=False, never_active=sz["never_active"])
@@ -182,14 +227,14 @@ def plan(binary, d, recs, B):
                               go_truncated=sz["truncated"], never_active=sz["never_active"]
                               if not sz["truncated"] else None, parts=[])
         sch = r["mach_schema"]
-        comps = relation_components(sch)
-        core = set().union(*comps) if comps else set()
-        nops = max(2 * len(core), 2)
+        core = relation_core(sch)
+        pe = B["part_edges"]
         cand = [record(r, "core", "relation core (%d of %d states)" % (len(core), len(sch)), core,
-                       B["part_edges"] // nops + 1)]
-        for c in comps:
-            cand.append(record(r, "comp", "component {%s}" % ",".join(sorted(c)), c,
-                               B["part_edges"] // (2 * len(c)) + 1))
+                       0, pe + 1)]
+        for c in group_clusters(sch, r["groups"]):
+            call = cluster_callable(sch, c)
+            cand.append(record(r, "group", "group {%s}: %d callable states" % (
+                ",".join(sorted(c)), len(call)), call, 0, pe + 1))
         parts.append((r["id"], cand))
     if parts:
         ppath = os.path.join(d, "parts.ndjson")
@@ -200,19 +245,24 @@ def plan(binary, d, recs, B):
         for sid, cs in parts:
             szs = psz[i:i + len(cs)]
             i += len(cs)
-            core_ok = not szs[0]["truncated"] and szs[0]["states"] * szs[0]["ops"] <= B["part_edges"]
-            if core_ok:
-                chosen.append(dict(cs[0], est_edges=szs[0]["states"] * szs[0]["ops"]))
+
+            def fits(sz):
+                return not sz["truncated"] and sz["states"] * sz["ops"] <= B["part_edges"]
+
+            if fits(szs[0]):
+                chosen.append(dict(cs[0], max_edges=0, est_edges=szs[0]["states"] * szs[0]["ops"],
+                                   est_states=szs[0]["states"]))
                 modes[sid]["mode"] = "core"
-                modes[sid]["parts"].append(dict(label=cs[0]["label"], states=szs[0]["states"]))
+                modes[sid]["parts"].append(dict(label=cs[0]["label"], states=szs[0]["states"],
+                                                explored=True))
                 continue
-            modes[sid]["mode"] = "components"
+            modes[sid]["mode"] = "groups"
             for c, sz in zip(cs[1:], szs[1:]):
-                fits = not sz["truncated"] and sz["states"] * sz["ops"] <= B["part_edges"]
-                modes[sid]["parts"].append(dict(label=c["label"], states=sz["states"],
-                                                explored=fits))
-                if fits:
-                    chosen.append(dict(c, est_edges=sz["states"] * sz["ops"]))
+                modes[sid]["parts"].append(dict(label=c["label"], explored=fits(sz),
+                                                states=sz["states"] if fits(sz) else None))
+                if fits(sz):
+                    chosen.append(dict(c, max_edges=0, est_edges=sz["states"] * sz["ops"],
+                                       est_states=sz["states"]))
     return chosen, modes, sizes
 
 
@@ -241,9 +291,12 @@ def tlc_replay(binary, records, name, d, B, sd, emit=True, simulate=None, invari
     td = tlcrun._scratch("MCSchemas")
     try:
         os.symlink(inp, os.path.join(td, "in.ndjson"))
+        # the real machine's search sized every record (est_states)
+        limit = int(1.25 * sum(r.get("est_states", 0) for r in records)) + 2000
         tlcrun.write_cfg(os.path.join(td, "MCSchemas.cfg"), spec="MCSpec",
-                         consts=dict(FLAGS, InputFile="in.ndjson", Emit=emit),
-                         view="MCView", invariants=invariants)
+                         consts=dict(FLAGS, InputFile="in.ndjson", Emit=emit, MaxDistinct=limit),
+                         view="MCView", invariants=invariants,
+                         constraint=None if simulate else "Bound")
         cmd = ["timeout", str(B["mc_timeout"]), "tlc", "-workers", str(workers),
                "-metadir", os.path.join(td, "meta"), "-config", "MCSchemas.cfg"]
         if simulate:
@@ -388,9 +441,9 @@ def validate(paths, timeout):
 
 # ---------------------------------------------------------------------------
 
-def path_to(binary, d, rec, positions, max_states):
+def path_to(binary, d, rec, positions, B):
     """operations (BFS tree of the real machine) that reach the set."""
-    r = record(rec, "full", "path", set(rec["index"]), max_states)
+    r = record(rec, "full", "path", set(rec["index"]), B["go_states"], B["go_edges"])
     p = os.path.join(d, "find.ndjson")
     write_records(p, [r])
     rc, out = run_stdout([binary, "schemas-path", "-in", p, "-find", json.dumps(positions)],
@@ -437,7 +490,7 @@ def check(tier):
                 raise Inconclusive("TLC timed out in %s:\n%s" % (res["name"], t["tail"][-800:]))
             if t["errors"] or not t["completed"]:
                 if not t["violated"]:
-                    raise Inconclusive("TLC error in %s: %s\n%s" % (res["name"], t["errors"][:3],
+                    raise Inconclusive("TLC error in %s (rc=%s): %s\n%s" % (res["name"], t["rc"], t["errors"][:3],
                                                                      t["tail"][-1500:]))
             if res.get("predicted"):
                 rep.notes.append("specification leaves %s in %s (prediction only): %s" % (
@@ -465,20 +518,23 @@ def check(tier):
                         st["id"], pm))
                 if st["mode"] == "sim":
                     continue
+                differs = (st["mismatches"] or st["code_only"] or st["spec_only"]
+                           or st["spec_states"] != st["code_states"])
+                if differs:
+                    rep.drift.append("%s [%s]: reachable sets differ: spec %d, code %d "
+                                     "(code only %d, spec only %d)" % (
+                                         st["id"], st["label"], st["spec_states"], st["code_states"],
+                                         st["code_only"], st["spec_only"]))
+                    continue
                 if st["code_truncated"]:
                     raise Inconclusive("real-machine search of %s [%s] exceeded its bound" % (
                         st["id"], st["label"]))
                 if st.get("incomplete_sample") is not None and not t["violated"]:
                     raise Inconclusive("TLC did not expand every state of %s (%s)" % (
                         st["id"], st["incomplete_sample"]))
-                if st["code_only"] or st["spec_only"] or st["spec_states"] != st["code_states"]:
-                    rep.drift.append("%s [%s]: reachable sets differ: spec %d, code %d "
-                                     "(code only %d, spec only %d)" % (
-                                         st["id"], st["label"], st["spec_states"], st["code_states"],
-                                         st["code_only"], st["spec_only"]))
 
         # ---- binding 2 + verdict: TLC evaluates the formulas on the code's output
-        paths, index = build_traces(d, recs, mc)
+        paths, index = build_traces(d, recs, mc, nshards=B["shards"])
         res = validate(paths, timeout=B["mc_timeout"])
         go_states = path_edges = 0
         static_seen = set()
@@ -497,7 +553,8 @@ def check(tier):
                 per_schema[s["id"]]["static"] = s["verdict"]
                 per_schema[s["id"]]["exclusive_groups"] = dict(
                     cliques=s["cliques"], declared=s["declared"])
-            for v in x["viol"]:
+            per_key = {}
+            for v in sorted(x["viol"], key=lambda v: (v[0], v[1], len(v[2]))):
                 ln, f, detail = v[0], v[1], v[2]
                 sid = lines[ln - 1]
                 rec = byid[sid]
@@ -505,18 +562,22 @@ def check(tier):
                     report_static(rep, rec, f, statics.get(sid, {}))
                     continue
                 # a reachable active set of the real machine breaks the formula
+                per_key[(sid, f)] = per_key.get((sid, f), 0) + 1
+                if per_key[(sid, f)] > 2:
+                    continue
                 if detail and isinstance(detail[0], int):
                     act = [rec["index"][p - 1] for p in detail]
                     pos = detail
                 else:
                     act = list(detail)
                     pos = sorted(rec["index"].index(n) + 1 for n in act)
-                ops = path_to(binary, d, rec, pos, B["go_states"])
+                ops = path_to(binary, d, rec, pos, B)
                 sig = dict(formula=f, schema=sid, active=sorted(act))
                 rep.violation(sig, dict(kind="state", property=PROP, formula=f, schema=sid,
                                         active=sorted(act), ops=ops),
-                              "%s false in reachable set %s of %s; path from the empty machine: %s" % (
-                                  f, sorted(act), sid, ops))
+                              "%s false in reachable set %s of %s; path from the empty machine "
+                              "(+k Add1 / -k Remove1 of index position k): %s; %d failing sets "
+                              "in this trace shard" % (f, sorted(act), sid, ops, x["nviol"]))
             for dr in x["drift"]:
                 rep.drift.append("%s line %d: %s (%s)" % (os.path.basename(r["file"]), dr[0],
                                                          dr[1], dr[2]))
@@ -540,7 +601,7 @@ def check(tier):
                  "empty machine is one evaluation executed on a real am.Machine (Import-injected "
                  "source) + every active set of the real machine's own BFS is evaluated by TLC; "
                  "non-trivial = the edge changes the active set; mode per schema is listed under "
-                 "coverage.schemas (full / core / components + simulate)",
+                 "coverage.schemas (full / core / groups + simulate)",
             samples=samples[:6] or [dict(note="no multi-state edge sampled")],
             exhaustive=all(m["mode"] == "full" for m in modes.values()),
             formulas=["parses", "refs", "reqcycle", "reqremove", "names", "requireclosed",
@@ -551,9 +612,10 @@ def check(tier):
             "mixin schemas that refer to predefined states of pkg/machine (Start) without defining "
             "them are explored with those states added as plain states (completed_with)",
             "TLC explores a schema in full only while states*ops <= %d; larger ones are explored "
-            "exhaustively over the relation core or per relation component (calls restricted to "
-            "those states) plus tlc -simulate on the full schema; the real machine's own search "
-            "covers up to %d sets per schema" % (B["full_edges"], B["go_states"]),
+            "exhaustively over the relation core, else over the states around each exclusive group "
+            "(calls restricted to those states, bound %d edges) plus tlc -simulate on the full "
+            "schema; the real machine's own search covers up to %d sets / %d edges per schema" % (
+                B["full_edges"], B["part_edges"], B["go_states"], B["go_edges"]),
             "spec flags model the repaired tree: " + json.dumps(FLAGS)]
     finally:
         shutil.rmtree(d, ignore_errors=True)
